@@ -587,7 +587,10 @@ TEXTS = ['hello', 'a b', 'NGC 1234', 'x;y#z', 'α Cen', 'two, parts', 'T', '(1) 
          'RADIO peak', 'NE QUADRANT', 'FMT', 'in deg, RAD or FMT', '{text} {0}', '1.5arcsec', 'coord=J2000'] + LINECHARS
 RANGES = [[(-1240.0, 'km/s'), (1240.0, 'km/s')], [(1.42, 'GHz'), (1.421, 'GHz')], [(1420.405, 'MHz'), (1421.0, 'MHz')],
           [(-320.0, 'm/s'), (-330.0, 'm/s')], [(5.0, 'chan'), (20.0, 'chan')], [(1.5, 'kHz'), (2.25, 'kHz')],
-          [(100.0, 'Hz'), (200.0, 'Hz')]]
+          [(100.0, 'Hz'), (200.0, 'Hz')],
+          # limits that need all their digits (a line frequency to the Hz) and limits of small magnitude
+          [(1.420405751786, 'GHz'), (1.420405751999, 'GHz')], [(1420405751.786, 'Hz'), (1420405999.5, 'Hz')], [(2.5e-09, 'GHz'), (7.5e-09, 'GHz')],
+          [(-0.000123456789012, 'km/s'), (0.000123456789012, 'km/s')]]
 CORRS = [['I'], ['I', 'Q'], ['I', 'Q', 'U', 'V'], ['XX', 'YY'], ['RR', 'LL', 'RL'], ['Q']]
 FRAMES_SPEC = ['REST', 'LSRK', 'LSRD', 'BARY', 'GEO', 'TOPO', 'GALACTO', 'LGROUP', 'CMB']
 VELTYPES = ['RADIO', 'OPTICAL', 'Z', 'BETA', 'GAMMA']
